@@ -114,6 +114,11 @@ func (c *Copier) CopyDict(obj Dict) (Dict, error) {
 	res := Dict{}
 	for _, key := range obj.SortedKeys() {
 		val := obj[key]
+		if val == nil {
+			// an explicit null entry (equivalent to an absent one)
+			res[key] = nil
+			continue
+		}
 		repl, err := c.Copy(val.AsPDF(c.w.GetOptions()))
 		if err != nil {
 			return nil, err
